@@ -72,7 +72,8 @@ struct Config {
   bool delay = false;     // delay bounding: every non-default choice costs one deviation (also at blocking points)
   int spurious = 0;       // spurious wake-ups allowed per execution (bounded mode), each counts as one deviation
   long maxexec = -1;      // cap on executions (-1: none)
-  double deadline_s = -1; // wall-clock cap
+  double deadline_s = -1; // wall-clock cap (seconds from start)
+  double until_epoch = -1; // absolute wall-clock cap (seconds since the epoch)
   int shard = 0, nshards = 1;
   int alarm_s = 10;
   long horizon = 200000;
@@ -166,6 +167,7 @@ struct Explorer {
   bool out_of_budget() {
     if (cfg.maxexec >= 0 && st.executions >= cfg.maxexec) { st.capped = true; return true; }
     if (cfg.deadline_s > 0 && std::chrono::duration<double>(std::chrono::steady_clock::now() - t0).count() > cfg.deadline_s) { st.capped = true; return true; }
+    if (cfg.until_epoch > 0 && (double)time(nullptr) > cfg.until_epoch) { st.capped = true; return true; }
     return false;
   }
   void account(const Exec &x, const std::vector<int> &prefix) {
